@@ -62,6 +62,8 @@ pub fn region_pred(name: &str, cell: &crate::families::Cell) -> bool {
     match name {
         // InverseGaussian: shape/mean < 0.1
         "ig_shape_over_mean_lt_0.1" => p.len() >= 2 && p[1] / p[0] < 0.1,
+        // the same cancellation seen by the atom test T5 (quantised outputs): visible up to shape/mean ~0.13
+        "ig_shape_over_mean_lt_0.2" => p.len() >= 2 && p[1] / p[0] < 0.2,
         // Zipf: s close to but different from 1 (f64: |s-1| < 1e-6, f32: |s-1| < 2e-3)
         "zipf_s_near_1_not_1" => {
             p.len() >= 2 && p[1] != 1.0 && (p[1] - 1.0).abs() < if cell.ft == Ft::F32 { 2e-3 } else { 1e-6 }
